@@ -19,6 +19,7 @@ type rstep struct {
 	Kind string        // add rmown rmany entries entry | controller: start stop restart release place
 	Spec schedSpec
 	K    int
+	How  string  // start / restart: "run" = go c.Run() instead of c.Start()
 	Hook string  // place: park the scheduler at this hook at this instant
 	Ops  []rstep // place: operations issued while it is parked
 }
@@ -30,6 +31,10 @@ func (s rstep) String() string {
 		return at + "add(" + s.Spec.String() + ")"
 	case "rmown", "rmany", "entry":
 		return fmt.Sprintf("%s%s(%d)", at, s.Kind, s.K)
+	case "start", "restart":
+		if s.How == "run" {
+			return at + s.Kind + "(go-run)"
+		}
 	case "place":
 		var ss []string
 		for _, o := range s.Ops {
@@ -155,7 +160,26 @@ func genRacing(rng *mon.RNG) (ctl []rstep, workers [][]rstep, hold bool) {
 		sort.SliceStable(ws, func(i, j int) bool { return ws[i].Off < ws[j].Off })
 		workers = append(workers, ws)
 	}
+	// life cycle: Start() only / mixed / mostly go Run()
+	runBias := rng.PickInt(0, 1, 2)
+	setVia := func(ss []rstep) {
+		for i := range ss {
+			if (ss[i].Kind == "start" || ss[i].Kind == "restart") && rng.Intn(2) < runBias {
+				ss[i].How = "run"
+			}
+			setViaOps(ss[i].Ops, rng, runBias)
+		}
+	}
+	setVia(ctl)
 	return ctl, workers, hold
+}
+
+func setViaOps(ss []rstep, rng *mon.RNG, runBias int) {
+	for i := range ss {
+		if (ss[i].Kind == "start" || ss[i].Kind == "restart") && rng.Intn(2) < runBias {
+			ss[i].How = "run"
+		}
+	}
 }
 
 func runRacing(t *testing.T, idx int, rng *mon.RNG) {
@@ -222,7 +246,7 @@ func runRacing(t *testing.T, idx int, rng *mon.RNG) {
 			case "restart":
 				w.stop(0)
 				w.checkCtx(false, "racing")
-				w.start(0)
+				w.startVia(0, s.How == "run")
 			case "stop":
 				w.stop(0)
 				w.checkCtx(false, "racing")
@@ -236,6 +260,7 @@ func runRacing(t *testing.T, idx int, rng *mon.RNG) {
 		w.releaseForever(0) // after Stop returned nothing starts any more, so no job is left behind on a fresh gate
 		synctest.Wait()
 		w.checkCtx(true, "racing")
+		w.checkRuns(0, "racing")
 		time.Sleep(2 * time.Minute)
 		synctest.Wait()
 	})
@@ -278,12 +303,12 @@ func (w *world) doStep(g int, s rstep, own []*ent) *ent {
 	case "entries":
 		w.entries(g)
 	case "start":
-		w.start(g)
+		w.startVia(g, s.How == "run")
 	case "stop":
 		w.stop(g)
 	case "restart":
 		w.stop(g)
-		w.start(g)
+		w.startVia(g, s.How == "run")
 	case "release":
 		w.release(g)
 	}
